@@ -130,16 +130,16 @@ def main(argv=None):
     for key, v in unconfirmed:
         print('UNCONFIRMED solver model (native replay did not reproduce or is not available): %s\n  site: %s\n  model: %s\n  %s' % (
             key, v['site'], json.dumps(v['model'], default=str)[:600], json.dumps(v.get('replay_result'), default=str)[:600]))
+    for name, n in inconclusive[:40]:
+        print('INCONCLUSIVE [%s]: %s' % (name, str(n)[:600]))
+    for name, d in vac_fail:
+        print('VACUITY guard failed [%s]: %s' % (name, d))
     if status == 0:
         if unconfirmed:
             status = 2
         if inconclusive:
-            for name, n in inconclusive[:40]:
-                print('INCONCLUSIVE [%s]: %s' % (name, n))
             status = 2
         if vac_fail:
-            for name, d in vac_fail:
-                print('VACUITY guard failed [%s]: %s' % (name, d))
             status = 2
 
     wall = time.time() - t0
